@@ -67,5 +67,77 @@ def main_only_reference_buses():
     sys.exit(1 if fails else 0)
 
 
+def _ratios(net, tag, fails, tol=1e-4):
+    """deviation / slack weight of every participant; nodal balance of the reported results at every bus"""
+    ratios = {}
+    for e in net.ext_grid.index[net.ext_grid.in_service]:
+        ratios[f"ext_grid {e}"] = net.res_ext_grid.p_mw.at[e] / net.ext_grid.slack_weight.at[e]
+    for g in net.gen.index[net.gen.in_service]:
+        dev = net.res_gen.p_mw.at[g] - net.gen.p_mw.at[g] * net.gen.scaling.at[g]
+        if net.gen.slack_weight.at[g] > 0:
+            ratios[f"gen {g}"] = dev / net.gen.slack_weight.at[g]
+        elif abs(dev) > 1e-6:
+            fails.append(f"{tag}: gen {g} with slack weight 0 deviates from its setpoint by {dev:.4f} MW")
+    for x in net.xward.index:
+        vm = net.res_bus.vm_pu.at[net.xward.bus.at[x]]
+        if not net.xward.in_service.at[x]:
+            if abs(np.nan_to_num(net.res_xward.p_mw.at[x])) > 1e-6:
+                fails.append(f"{tag}: out-of-service xward {x} reports p_mw = {net.res_xward.p_mw.at[x]:.4f}")
+            continue
+        dev = net.res_xward.p_mw.at[x] - net.xward.ps_mw.at[x] - net.xward.pz_mw.at[x] * vm ** 2
+        if net.xward.slack_weight.at[x] > 0:
+            ratios[f"xward {x}"] = -dev / net.xward.slack_weight.at[x]
+        elif abs(dev) > 1e-5:
+            fails.append(f"{tag}: xward {x} with slack weight 0 deviates from its model power by {dev:.4f} MW")
+    vals = np.array(list(ratios.values()))
+    if np.max(vals) - np.min(vals) > tol * max(1., abs(vals).max()):
+        fails.append(f"{tag}: deviation / slack_weight differs between participants: " + ", ".join(f"{k}: {v:.4f}" for k, v in ratios.items()))
+    for b in net.bus.index:
+        inj = net.res_line.p_from_mw[net.line.from_bus == b].sum() + net.res_line.p_to_mw[net.line.to_bus == b].sum()
+        el = net.res_load.p_mw[net.load.bus == b].sum() - net.res_sgen.p_mw[net.sgen.bus == b].sum() + np.nansum(net.res_xward.p_mw[net.xward.bus == b]) \
+            - net.res_gen.p_mw[net.gen.bus == b].sum() - net.res_ext_grid.p_mw[net.ext_grid.bus == b].sum()
+        if abs(inj + el) > 1e-3:
+            fails.append(f"{tag}: nodal balance at bus {b} is off by {inj + el:.4f} MW")
+            break
+
+
+def main_xwards():
+    """several participating xwards (table order not ascending in the bus, one out of service), elements next to an xward, q limits"""
+    fails = []
+
+    def base(xwards, extra=None, oos=()):
+        net = pp.create_empty_network()
+        b = pp.create_buses(net, 5, 110.)
+        pp.create_ext_grid(net, b[0], vm_pu=1.01, slack_weight=1.)
+        pp.create_gen(net, b[1], p_mw=30., vm_pu=1.01, slack_weight=2., min_q_mvar=-100., max_q_mvar=100.)
+        for bus, w in xwards:
+            pp.create_xward(net, b[bus], 5., 1., 0.5, 0.2, 0., 5., 1.0, slack_weight=w)     # r_ohm = 0: no active power in the internal branch
+        for x in oos:
+            net.xward.at[x, "in_service"] = False
+        for f, t in ((0, 1), (1, 2), (2, 3), (3, 4), (4, 0)):
+            pp.create_line_from_parameters(net, b[f], b[t], 20., 0.06, 0.3, 10., 0.8)
+        pp.create_load(net, b[2], 70., 10.); pp.create_load(net, b[4], 45., 5.)
+        if extra:
+            extra(net)
+        return net
+    for tag, net, kw in (
+            ("two xwards (buses 3, 4) and an out-of-service one", base([(3, 0.5), (4, 1.5), (2, 1.0)], oos=(2,)), {}),
+            ("xwards listed with descending buses (4: 0.5, 3: 3.0)", base([(4, 0.5), (3, 3.0)]), {}),
+            ("an sgen of 7 MW at the xward bus", base([(3, 0.7)], extra=lambda n: pp.create_sgen(n, 3, 7., 0.)), {}),
+            ("a load with scaling 0.5 at the xward bus", base([(3, 0.7)], extra=lambda n: pp.create_load(n, 3, 10., 1., scaling=0.5)), {}),
+            ("enforce_q_lims with the gen at its limit", base([(3, 0.7)], extra=lambda n: n.gen.__setitem__("max_q_mvar", 2.)), dict(enforce_q_lims=True))):
+        try:
+            pp.runpp(net, distributed_slack=True, tolerance_mva=1e-9, **kw)
+        except Exception as e:
+            fails.append(f"{tag}: runpp(distributed_slack=True) raised {type(e).__name__}: {str(e)[:80]}")
+            continue
+        _ratios(net, tag, fails)
+    for f in fails:
+        print("REPRODUCED:", f)
+    if not fails:
+        print("not reproduced: xwards take their share of the balancing power")
+    sys.exit(1 if fails else 0)
+
+
 if __name__ == "__main__":
     main()
